@@ -9,7 +9,7 @@
  H5 DDL-SAVES        (shared with C21 D) every catalog mutation in a DDL handler is followed by a catalog save.
 Equality of query results across reopen is NOT decided.
 """
-from paths import order_after, must_pass, describe_path, must_reach_closure, from_field
+from paths import call_named, order_after, must_pass, describe_path, must_reach_closure, from_field
 from model import CheckError
 import common
 from props import c01
@@ -25,7 +25,8 @@ def run(ctx):
     for f in sorted(m.fns.values(), key=lambda f: f.id):
         if not any(alloc(c) for c in f.calls):
             continue
-        res, _ = order_after(f, alloc, lambda c: c.name.endswith("Database::save_meta") or c.name in SAVE, [])
+        A = [call_named(["Vec::<T, A>::is_empty", "SmallVec::<A>::is_empty"], False, desc="an id was allocated, so the list of new objects is not empty")]
+        res, _ = order_after(f, alloc, lambda c: c.name.endswith("Database::save_meta") or c.name in SAVE, A)
         n += len(res)
         bad = [(c, e) for c, ok, e in res if not ok]
         ctx.ob("H1.IDS-PERSISTED", f.id.rsplit("::", 1)[-1], not bad, "%d id allocation(s) all followed by save_meta" % len(res) if not bad else
